@@ -386,6 +386,23 @@ def _r4_set_backend(ctx):
                     else:
                         ctx.violated(r4, sb, n, f"`{nm}` is computed after state['current'] was replaced: it compares the new backend with itself and never fires",
                                      expected="comparison before the swap", node=n)
+    # the backend whose name/precision is compared is the backend that gets installed: no rebinding in between
+    for s_ in swaps:
+        inst = s_.value.elts[0] if isinstance(s_.value, ast.Tuple) and s_.value.elts else None
+        if not isinstance(inst, ast.Name):
+            continue
+        var = inst.id
+        cmps = [n for n in ast.walk(sb.node) if isinstance(n, ast.Assign) and any(isinstance(x, ast.Attribute) and x.attr in ("name", "precision") and isinstance(x.value, ast.Name) and x.value.id == var for x in ast.walk(n.value)) and any(isinstance(x, ast.Subscript) and A.const_value(x.slice) == "current" for x in ast.walk(n.value))]
+        rebinds = [n for n in ast.walk(sb.node) if isinstance(n, ast.Assign) and any(isinstance(t2, ast.Name) and t2.id == var for t2 in n.targets)]
+        for cmp_ in cmps:
+            n_cmp, n_swap = g.node_of(cmp_), g.node_of(s_)
+            after_cmp = g.reachable(n_cmp) if n_cmp is not None else set()
+            late = [rb for rb in rebinds if g.node_of(rb) in after_cmp and g.node_of(rb) != n_cmp and n_swap in g.reachable(g.node_of(rb))]
+            if late:
+                ctx.violated(r4, sb, late[0], f"`{var}` is re-created after its name/precision were compared with the current backend and before it is installed: the backend that is installed can differ from the one the change test looked at (a precision switch through precision=... fires no event and every cached tensor stays stale)", expected="the comparison after the last assignment of the backend object", node=late[0])
+            else:
+                ctx.holds(r4, f"{MAN}::set_backend: `{var}` compared == `{var}` installed", "no rebinding between the change test and the swap")
+
     # _setup on every normal path
     def is_setup(node):
         return any(A.call_attr(c) == "_setup" for c in A.calls_in(node.stmt, into_defs=False)) if not isinstance(node.stmt, (ast.If, ast.For, ast.While, ast.Try, ast.With)) else False
